@@ -1984,20 +1984,37 @@ func ruleC08InstanceFacts(c *Ctx) {
 		if !hasConst || !hasFact {
 			return
 		}
-		// is the constant edge chosen by the presence of keywords?
+		// is the choice between "compute the fact" and "take the constant" made by the presence of keywords? There must be
+		// a branch on a schema condition one outcome of which leads to where the fact is computed, while the constant
+		// arrives by a path that avoids that outcome.
 		bySchema := ""
 		for k, e := range phi.Edges {
 			if _, isK := e.(*ssa.Const); !isK {
 				continue
 			}
-			pred := phi.Block().Preds[k]
-			for _, g := range controlGuards(pred.Instrs[len(pred.Instrs)-1]) {
-				if g.At.Parent() == phi.Parent() && g.At.Block().Dominates(pred) && readsSchema(g.Cond) && !fromInstance(g.Cond) {
-					bySchema = c.pos(g.At)
+			constPred := phi.Block().Preds[k]
+			for k2, e2 := range phi.Edges {
+				if k2 == k {
+					continue
 				}
-			}
-			if ifi, ok := pred.Instrs[len(pred.Instrs)-1].(*ssa.If); ok && readsSchema(ifi.Cond) && !fromInstance(ifi.Cond) {
-				bySchema = c.pos(ifi)
+				if _, isK := e2.(*ssa.Const); isK || !fromInstance(e2) {
+					continue
+				}
+				def, ok := e2.(ssa.Instruction)
+				if !ok {
+					continue
+				}
+				for _, b := range phi.Parent().Blocks {
+					ifi, isIf := b.Instrs[len(b.Instrs)-1].(*ssa.If)
+					if !isIf || len(b.Succs) != 2 || !readsSchema(ifi.Cond) || fromInstance(ifi.Cond) || !b.Dominates(constPred) {
+						continue
+					}
+					for _, sT := range b.Succs {
+						if sT.Dominates(def.Block()) && !sT.Dominates(constPred) && sT != constPred {
+							bySchema = c.pos(ifi)
+						}
+					}
+				}
 			}
 		}
 		if bySchema == "" {
